@@ -53,11 +53,11 @@ def job(j):
     if tid < NWIT:
         # deterministic witnesses: members of every unit alternate in the individual-level flags that the known
         # findings hinge on, so that those findings are observed on every run
-        structs = [popgen.CANON["family_2"], popgen.CANON["couple_unmarried"], popgen.CANON["single_parent_2"]]
+        structs = [popgen.CANON["family_2"], popgen.CANON["couple_unmarried"], popgen.CANON["single_parent_2"], popgen.CANON["stepchild_elsewhere"]]
         prof = {"bürgerg_bezug_vorj": lambda i, r, d, rr: i % 2 == 0, "alleinerz": lambda i, r, d, rr: i % 2 == 1 and d["alter"] >= 18,
                 "monate_elterngeldbezug": lambda i, r, d, rr: (3 * i) % 14 if d["alter"] >= 18 else 0, "elterngeld_claimed": lambda i, r, d, rr: d["alter"] >= 18}
     P = popgen.compose(structs, date, rnd, sparse=rnd.random() < 0.5, profile=prof)
-    if rnd.random() < 0.6:   # several units in ONE household (except spouses living apart)
+    if rnd.random() < 0.6 and tid % 3 != 0:   # several units in ONE household (every third population keeps its households apart)
         hh0 = P[0]
         for p in P:
             p["hh_id"] = 0
